@@ -181,7 +181,7 @@ pub fn run(args: &Args) -> i32 {
         return rep.finish();
     }
 
-    let max_len = args.opt_usize("len", 7);
+    let max_len = args.opt_usize("len", args.tier.pick(8, 10));
     // ---- decode: all byte strings of length <= max_len
     let mut lens: Vec<usize> = (0..=max_len).collect();
     lens.reverse(); // longest first for load balance
